@@ -360,9 +360,13 @@ def main(tier: str) -> int:
             numba_seed(chk.seed * 1000 + 6000 + s)
             for name in ("standard_crossover", "one_point_crossoverGP", "uniform_crossoverGP"):
                 arr = np.array([pa, pb], dtype=object)
-                child = getattr(X, name)(arr, np.ones(2), np.ones(2), ml_)
+                try:
+                    child = getattr(X, name)(arr, np.ones(2), np.ones(2), ml_)
+                except Exception as e:  # noqa
+                    chk.fail("a crossover raises on well-formed parents", {"operator": name, "parents": [str(pa), str(pb)], "max_level": ml_, "error": repr(e)[:160]}, {"fn": name, "clause": "raises"})
+                    continue
                 chk.count("aimed_depth_" + name)
-                chk.case(("aimed_depth", name, str(pa), str(pb), str(child)))
+                chk.case(("aimed_depth", name, str(pa), str(pb), s))
                 check_child(name, [pa, pb], child, ml_, {"operator": name, "parents": [str(pa), str(pb)], "max_level": ml_, "seed": chk.seed * 1000 + 6000 + s})
 
     # ... and with a generator of FLOAT constants that has a small range: every node of a mutant is a node over the universal set - a
@@ -388,6 +392,8 @@ def main(tier: str) -> int:
                          {"fn": name, "clause": "raises", "max_arity": max(flat_names(t)[1])})
                 continue
             chk.count("float_constants_" + name)
+            if not check_child(name, [t], child, max(L, depth_of(flat_names(t)[1])), {"operator": name, "tree": str(t), "eph": True}):
+                continue        # malformed: reported by check_child; it cannot be printed
             chk.case(("float_constants", name, str(t), str(child)))
             alien = [str(nd) for nd in child._nodes if not ((isinstance(nd, _ECN) and any(nd._value == f for f in FLOATS)) or id(nd) in own)]
             if alien:
